@@ -353,7 +353,72 @@ def is_f1_shape(a, b) -> bool:
     return "__env_overrides__" in names
 
 
+def api_ingredients_oracle(ctx):
+    """The ingredients of the step hash that a plan writes (tracked variables, `shell=`, `env_overrides=`) reach
+    the director as written, for every API function that takes them and for `amend(env=...)`: a change that never
+    arrives can never be detected."""
+    import apicap
+
+    r = ctx.rng("api-ingredients")
+    names = ["VAR_A", "VAR_B", "MODE", "LANG2"]
+    with apicap.project() as base:
+        for i in range(ctx.budget(40, 400)):
+            env = sorted(r.sample(names, r.randint(0, 3)))
+            shell = r.random() < 0.5
+            # a variable is either tracked or overridden (the API rejects both)
+            over = {n: r.choice(["1", "x y", ""]) for n in r.sample(names, r.randint(0, 2)) if n not in env} or None
+            wname = ["step", "run", "plan", "call", "script", "amend"][i % 6]
+            with apicap.step_process(base) as (api, client):
+                try:
+                    if wname == "step":
+                        api.step("true", env=env, shell=shell, env_overrides=over)
+                    elif wname == "run":
+                        api.run("./tool.py arg", env=env, shell=shell)
+                    elif wname == "plan":
+                        api.plan("./tool.py arg", env=env)
+                    elif wname == "call":
+                        api.call("./tool.py", "fn", env=env)
+                    elif wname == "script":
+                        api.script("./tool.py", env=env)
+                    else:
+                        api.amend(env=env)
+                except Exception as exc:  # noqa: BLE001
+                    ctx.finding(Finding(PID, f"ingredient-lost-in-api:{wname}:raises", f"{wname}(env={env}) raises {exc!r}",
+                                        {"wrapper": wname, "env": env}))
+                    continue
+            ctx.stats.count(f"api-ingredients:{wname}")
+            if wname == "amend":
+                call = client.last("amend_step")
+                sent_env = None if call is None else sorted(call[1][2])
+                if (call is None and env) or (call is not None and sent_env != env):
+                    ctx.finding(Finding(PID, "ingredient-lost-in-api:amend:env",
+                                        f"amend(env={env}) reaches the director as amend_step(env={sent_env})",
+                                        {"env": env, "sent": sent_env}))
+                continue
+            call = client.last("define_step")
+            args = call[1] if call is not None else ()
+            sent_env = sorted(args[3]) if len(args) > 3 else None
+            # the variables substituted in the arguments are added by the API; none are used here
+            if sent_env is None or not set(env) <= set(sent_env) or (set(sent_env) - set(env)):
+                ctx.finding(Finding(PID, f"ingredient-lost-in-api:{wname}:env",
+                                    f"{wname}(env={env}) reaches the director as define_step(env={sent_env})",
+                                    {"wrapper": wname, "env": env, "sent": sent_env}))
+            if wname in ("step", "run"):
+                sent_shell = args[9] if len(args) > 9 else call[2].get("shell")
+                if bool(sent_shell) != shell:
+                    ctx.finding(Finding(PID, f"ingredient-lost-in-api:{wname}:shell",
+                                        f"{wname}(shell={shell}) reaches the director as define_step(shell={sent_shell})",
+                                        {"wrapper": wname, "shell": shell, "sent": sent_shell}))
+            if wname == "step":
+                sent_over = args[10] if len(args) > 10 else call[2].get("env_overrides")
+                if (sent_over or None) != over:
+                    ctx.finding(Finding(PID, "ingredient-lost-in-api:step:env_overrides",
+                                        f"step(env_overrides={over}) reaches the director as define_step(env_overrides={sent_over})",
+                                        {"env_overrides": over, "sent": sent_over}))
+
+
 async def search(ctx):
+    api_ingredients_oracle(ctx)
     r = ctx.rng("oracle")
     n = ctx.budget(4000, 80000)
     kinds = {}
